@@ -19,6 +19,12 @@
      L  lock; write section; unlock           R  rlock; read section; runlock
      @k wait (client-level) until k waiters have announced, under the mutex, that
         they are about to wait
+     dm dM dc dC  call nsync_mu_debug_state / nsync_mu_debug_state_and_waiters /
+        nsync_cv_debug_state / nsync_cv_debug_state_and_waiters, once with a 24-byte and once
+        with a 300-byte buffer (exact-size arena blocks: a write outside them is caught by the
+        runtime); the result must be NUL-terminated inside the buffer (C16).  All other
+        oracles stay in force, so a debug call that changes who holds the mutex, loses a
+        wake-up or deadlocks is reported by them.
 
    Oracles
      C01  shadow occupancy at every entry into a section, including every return
@@ -67,6 +73,7 @@ static int cv_setup (const char *program) {
 			if (o[1] == 'n' && o[2] != 0 && o[3] != 0) return -1;
 			waiters++;
 		} else if (!strcmp (o, "S") || !strcmp (o, "B") || !strcmp (o, "S'") || !strcmp (o, "B'") || !strcmp (o, "s") || !strcmp (o, "L") || !strcmp (o, "R")) {
+		} else if (!strcmp (o, "dm") || !strcmp (o, "dM") || !strcmp (o, "dc") || !strcmp (o, "dC")) {
 		} else if (!strcmp (o, "N")) notifier = 1;
 		else if (o[0] == '@' && o[1] >= '1' && o[1] <= '9' && o[2] == 0) { if (o[1] - '0' > SLOTS) return -1; }
 		else return -1;
@@ -159,6 +166,26 @@ static int do_wait (int slot, const char *o) {
 	return r;
 }
 
+MC_ORACLE static void check_buf (const char *buf, int n, const char *ret) {
+	int i;
+	if (ret != buf) { mc_fail ("debug-state function did not return its buffer"); return; }
+	for (i = 0; i < n; i++) if (buf[i] == 0) return;
+	mc_fail ("debug-state function left a %d-byte buffer without terminating NUL", n);
+}
+static void do_debug (const char *o) {
+	static const int sizes[2] = { 24, 300 };
+	int i;
+	for (i = 0; i < 2; i++) {
+		int n = sizes[i];
+		char *buf = (char *) mc_malloc (n), *r;
+		memset (buf, 'x', n);
+		if (o[1] == 'm') r = nsync_mu_debug_state (&mu, buf, n);
+		else if (o[1] == 'M') r = nsync_mu_debug_state_and_waiters (&mu, buf, n);
+		else if (o[1] == 'c') r = nsync_cv_debug_state (&cv, buf, n);
+		else r = nsync_cv_debug_state_and_waiters (&cv, buf, n);
+		check_buf (buf, n, r);
+	}
+}
 static void cv_thread (int me) {
 	int k;
 	for (k = 0; k < h_nops[me]; k++) {
@@ -174,7 +201,8 @@ static void cv_thread (int me) {
 			if (!after) { if (b) nsync_cv_broadcast (&cv); else nsync_cv_signal (&cv); wake_issued (w); }
 			h_leave (&mu, 1); nsync_mu_unlock (&mu);
 			if (after) { if (b) nsync_cv_broadcast (&cv); else nsync_cv_signal (&cv); wake_issued (w); }
-		} else if (o[0] == 'N') nsync_note_notify (note_fresh);
+		} else if (o[0] == 'd') do_debug (o);
+		else if (o[0] == 'N') nsync_note_notify (note_fresh);
 		else if (o[0] == 'L') { nsync_mu_lock (&mu); h_enter (&mu, 1, "nsync_mu_lock"); write_section (); h_leave (&mu, 1); nsync_mu_unlock (&mu); }
 		else if (o[0] == 'R') { nsync_mu_rlock (&mu); h_enter (&mu, 0, "nsync_mu_rlock"); read_section (); h_leave (&mu, 0); nsync_mu_runlock (&mu); }
 		else if (o[0] == '@') mc_await (&announced_ge[o[1] - '0']);
